@@ -1,7 +1,7 @@
 (** C08 - Comparison is one consistent total order; equal values are interchangeable keys.
     Property theorems only; proofs in Proofs/F64Order.v, Proofs/NumExact.v, Proofs/ValOrder.v. *)
-From Coq Require Import ZArith Bool List.
-From JaqV Require Import Base.F64 Val.Num Val.Val Proofs.F64Order Proofs.NumExact Proofs.HashLaws Proofs.ValOrder.
+From Coq Require Import ZArith Bool List Sorting.Sorted.
+From JaqV Require Import Base.F64 Val.Num Val.Val Proofs.F64Order Proofs.NumExact Proofs.HashLaws Proofs.ValOrder Proofs.BsearchLaws Std.Natives.
 Local Open Scope Z_scope.
 
 (** floats free of NaN: [float_cmp] is a total preorder with both zeros identified *)
@@ -83,3 +83,17 @@ Print Assumptions value_order_mixed_small.
 Theorem comparison_fuel_irrelevant : forall n x y, (depth x < n)%nat -> (depth y < n)%nat -> val_cmp x y = cmp_f n x y.
 Proof. exact ValOrder.val_cmp_fuel. Qed.
 Print Assumptions comparison_fuel_irrelevant.
+
+(** `bsearch($x)` (Std/Natives.v [bsearch]: the binary search of the standard library that jaq calls) on an array sorted by the
+    order of values, for every class of values on which that order is a total preorder (the instances above): a non-negative
+    result is the position of an element equal to $x, there is one whenever $x occurs, and a negative result -1 - r names the
+    insertion point - everything before it is smaller, everything from it on greater *)
+Theorem bsearch_on_sorted_arrays : forall P, tpo val_cmp P -> forall a x, Forall P a -> P x ->
+  StronglySorted (fun u v => val_cmp u v <> Gt) a -> a <> nil ->
+  (forall z, 0 <= z -> bsearch a x = z -> val_cmp (nth (Z.to_nat z) a Null) x = Eq /\ (Z.to_nat z < length a)%nat)
+  /\ (forall i, (i < length a)%nat -> val_cmp (nth i a Null) x = Eq -> 0 <= bsearch a x)
+  /\ (forall r, bsearch a x = -1 - Z.of_nat r ->
+        (r <= length a)%nat /\ (forall i, (i < r)%nat -> val_cmp (nth i a Null) x = Lt)
+        /\ (forall i, (r <= i < length a)%nat -> val_cmp (nth i a Null) x = Gt)).
+Proof. exact BsearchLaws.bsearch_sorted. Qed.
+Print Assumptions bsearch_on_sorted_arrays.
